@@ -97,12 +97,19 @@ REGISTRY = {
         'modules': ['contracts.core_tasks'], 'level': 'proof',
         'level_text': 'processTask (which drives generators through next/send/throw, modelled as callbacks) keeps the bookkeeping '
                       'invariant waitingHandlers = live generator frames on every branch and reschedules the caller whenever the '
-                      'callee finishes or fails; closures of waitEvent remove what they installed. The cross-yield protocol of the '
-                      'waitEvent/callEvent generator bodies has only a bounded stand-in.',
-        'level_note': 'trusted protocol facts about waitEvent/callEvent generators (first yield = state, last = CallValue); '
-                      'resumption "exactly once with the result" across yields is bounded (labelled).',
-        'explanation': 'task bookkeeping contracts discharged by z3; generator protocol bounded',
-        'not_decided': ['waitEvent/callEvent generator bodies across yields (bounded stand-in)', 'timeouts'],
+                      'callee finishes or fails. The generator bodies of waitEvent (by object and by name) and callEvent are verified '
+                      'segment by segment (first segment installs exactly the temporary handlers and yields the wait state; after '
+                      'resumption the done handler is removed and CallValue(result of the bound event) is the last yield; callEvent '
+                      'fires once and waits for that very object with the caller\'s timeout). The three closures are verified against a '
+                      'protocol invariant WInv (countdown installed <=> timeout >= 0 and caller not yet resumed; event handler installed '
+                      '<=> not yet bound): exactly one of result / TimeoutError resumes the caller and every temporary handler is removed '
+                      'on every path.',
+        'level_note': 'rely/guarantee between the segments: what may happen while the generator is suspended is exactly the proved '
+                      'guarantees of the closures and of processTask; assumed: user handlers never yield CallValue themselves, wait/call '
+                      'generators always have a parent, one channel per wait; liveness (the done event eventually arrives) not decided.',
+        'explanation': 'task bookkeeping, wait/call generator bodies and their temporary handlers under contract, discharged by z3',
+        'not_decided': ['waits on several channels at once (handlers of all but the last channel are not tracked by the code)',
+                        'liveness: that the awaited event is eventually dispatched'],
     },
     'C08': {
         'modules': ['contracts.core_tasks', 'contracts.core_run', 'contracts.core_dispatch'], 'level': 'proof',
